@@ -273,4 +273,23 @@ def parseChars (cs : List Char) : Except PErr J :=
 
 def parse (s : String) : Except PErr J := parseChars s.toList
 
+/-! ### several documents in one text (`json-parse`, `each-bag`, streams) -/
+
+/-- documents one after the other, white space between them is optional where the syntax allows
+    it; `n` bounds the number of documents (every document takes at least one character) -/
+def parseManyAux : Nat → List Char → Except PErr (List J)
+  | 0, _ => .error .fuel
+  | n + 1, cs =>
+    match skipWs cs with
+    | [] => .ok []
+    | c :: rest =>
+      match parseValue (rest.length + 2) (c :: rest) with
+      | .ok (j, r) =>
+        match parseManyAux n r with
+        | .ok js => .ok (j :: js)
+        | .error e => .error e
+      | .error e => .error e
+
+def parseMany (s : String) : Except PErr (List J) := parseManyAux (s.length + 1) s.toList
+
 end SlipVerif.Json
